@@ -249,7 +249,102 @@ def check_C20(ctx):
                     "dictionary iteration order is not promised: keys/values/iteration are compared as sets / bags"])
 
 
+# ------------------------------------------------------------------------------------------ C05
+C05_FILES = ["system/Values.tla", "system/MC_Values.tla", "system/Sim_Values.tla",
+             "system/Cover_Values_tx.cfg", "system/Cover_Values_st.cfg", "system/Sim_Values.cfg"]
+C05_SIM_DEPTH = 120
+
+
+def _c05_cover_behaviours(ctx, name, base_id):
+    is_final = lambda s: json.loads(s)["phase"] == "idle"
+    r, g, paths = _cover(ctx, C05_FILES, "MC_Values", "Cover_Values_%s.cfg" % name, "cover-" + name, is_final, max_len=90)
+    behs, triples = [], set()
+    for n, path in enumerate(paths):
+        steps = [g.edges[i][1] for i in path]
+        for i in path:
+            ks, a, kt, t = g.edges[i]
+            triples.add((ks, json.dumps({k: v for k, v in a.items() if k != "obs"}, sort_keys=True)))
+        behs.append({"id": base_id + n, "steps": steps})
+    ctx.log("cover %s: %d states, %d transitions -> %d behaviours" % (name, len(g.states), len(g.edges), len(behs)))
+    return r, g, behs, triples
+
+
+def check_C05(ctx):
+    _java_opts()
+    binary = ctx.build("vals")
+    nsim = 64 if ctx.quick else 1600
+    chunks = 4 if ctx.quick else 16
+    per = (nsim + chunks - 1) // chunks
+
+    def sim_job(k):
+        return lambda: ctx.tlc(C05_FILES, "Sim_Values", "Sim_Values.cfg", simulate=per, depth=C05_SIM_DEPTH + 1,
+                               tag="sim%d" % k, timeout=2400, count=False, extra=["-aril", str(1000 * ctx.seed + k)])
+
+    covers = ["tx", "st"]
+    jobs = [(lambda nm=nm, i=i: _c05_cover_behaviours(ctx, nm, 100000 * (i + 1))) for i, nm in enumerate(covers)]
+    jobs += [sim_job(k) for k in range(chunks)]
+    results = _parallel(jobs, width=6)
+    cres, sims = results[:len(covers)], results[len(covers):]
+
+    def classify(f):
+        ctx.report(f.get("sig") or {"kind": f["kind"]},
+                   "behaviour %d (%s, payload as %s) step %d: %s" % (f["id"], f.get("engine"), f.get("ref"), f["step"], f["msg"]),
+                   {"behaviour": f.get("beh"), "source": f.get("src"), "engine": f.get("engine"), "refinement": f.get("ref")})
+
+    triples, cover_behs, states, transitions = set(), [], 0, 0
+    for r, g, behs, tr in cres:
+        cover_behs += behs
+        triples |= tr
+        states += len(g.states)
+        transitions += len(g.edges)
+    s1, _ = _replay(ctx, binary, "c05", cover_behs, "cover", classify)
+    ctx.add_sample({"kind": "transition-cover behaviour", "steps": [{k: v for k, v in st.items() if k != "obs"} for st in cover_behs[len(cover_behs) // 3]["steps"][:10]]})
+
+    sim_behs = []
+    for r in sims:
+        for h in _unique_hists(r, C05_SIM_DEPTH):
+            sim_behs.append({"id": 900000 + len(sim_behs), "steps": h})
+    if len(sim_behs) < nsim // 2:
+        raise Infra("simulation produced too few behaviours: %d of %d" % (len(sim_behs), nsim))
+    ops = {}
+    for b in sim_behs:
+        for st in b["steps"]:
+            lab = {k: v for k, v in st.items() if k != "obs"}
+            ops[st["op"]] = ops.get(st["op"], 0) + 1
+            triples.add(("sim", json.dumps(lab, sort_keys=True), json.dumps(st.get("obs"), sort_keys=True)))
+    need = {"newO", "newI", "assignO", "idO", "argMutO", "readI", "writeI", "appendA", "popA", "delD", "setP", "setX", "push",
+            "save", "load", "copySt", "refO", "borrow", "refI", "commit", "abort"}
+    if need - set(ops):
+        raise Infra("simulated histories never exercised: %s" % sorted(need - set(ops)))
+    via_ref = sum(1 for b in sim_behs for st in b["steps"] if st.get("root") in ("r", "q") and st["op"] in ("setP", "setX", "push", "writeI", "appendA", "delD"))
+    s2, _ = _replay(ctx, binary, "c05", sim_behs, "sim", classify)
+    h0 = sim_behs[0]["steps"]
+    ctx.add_sample({"kind": "simulated history (first steps, observations omitted)", "steps": [{k: v for k, v in st.items() if k != "obs"} for st in h0[:12]]})
+    ctx.add_sample({"kind": "a predicted observation", "step": h0[min(8, len(h0) - 1)]})
+    return ctx.finish({
+        "states": states, "transitions": transitions,
+        "traces_validated_against_impl": s1["replays"] + s2["replays"],
+        "transactions_executed": (s1["transactions"] + s2["transactions"]) * s1["engines"] * s1["refinements"],
+        "evaluations": (s1["steps"] + s2["steps"]) * s1["engines"] * s1["refinements"],
+        "distinct_nontrivial": len(triples),
+        "rule": "distinct (abstract state, step) pairs of the two bounded configurations plus distinct (step, predicted deep observation) pairs of the simulated histories; after each of them every variable, both references and every storage path are compared deeply",
+        "exhaustive": True,
+        "cover_behaviours": len(cover_behs), "simulated_histories": len(sim_behs),
+        "mutations_through_references_in_simulation": via_ref,
+        "operations_in_simulation": ops,
+    }, assumptions=["host = repo's TestRuntimeInterface/TestLedger (harness/host), atree validation on",
+                    "value universe: struct Outer {p, i: Inner, a: [Inner], d: {String: Inner}}, struct Inner {x, xs: [payload]}; payload as Int or as 300-byte String",
+                    "references whose target is no longer reachable from a variable or from storage are not used (dangling references are outside the property)"])
+
+
 META = {
+    "C05": {
+        "level_text": "Exhaustive TLC exploration of two bounded configurations of Values.tla (a heap of struct / array / dictionary nodes with explicit deep copies; 2 Outer + 1 Inner variable, 2 steps per transaction; and 1 variable + 1 storage path over 2 transactions) with the invariants NoSharing (no two roots reach a common node, every node has one parent), NoGarbage, RefsAreLive, Shapes and the action property that a mutation changes the value of at most one root; every transition of those graphs and simulated 120-step histories (3 Outer + 2 Inner variables, 2 storage paths, references to variables, to nested members and to stored values, nesting struct > array/dictionary > struct > array) are replayed on the real runtime under interpreter and VM with 8-byte and 300-byte payloads; after every step the deep value of every variable, of what both references show and of every storage path is compared with the model, and after every transaction the stored values are re-read from the ledger.",
+        "level_note": "Trusted: TLC, the Go renderer, the repo's test ledger as host. Bounded: array lengths <= 3, two dictionary keys; dangling references are not exercised.",
+        "technique": "TLA+ spec (Values.tla) model-checked with TLC; spec behaviours (transition cover + simulation) replayed into the real runtime and compared step by step",
+        "design_ref": "DESIGN.md section 5 C05",
+        "engine": "E2 replay",
+    },
     "C20": {
         "level_text": "Exhaustive TLC exploration of four bounded configurations of Containers.tla (stored array of <=4 elements over 2 values; in-memory array/dictionary with up to 3 calls per transaction; stored dictionary with <=3 keys; constant-sized array) with the model's invariants and action properties; every transition of those graphs, in both access modes (borrowed reference / load-modify-save), is replayed on the real runtime under interpreter and VM with elements represented as Int, 300-byte String and nested array, comparing every call's result, index-error aborts, and the full stored contents re-read by a fresh script after every transaction. Simulated deep histories (300 steps, bulk fills of 40-450 elements/keys crossing atree slab thresholds, aborts, reloads) are replayed the same way.",
         "level_note": "Trusted: TLC, the Go renderer of model steps to Cadence, the repo's test ledger as host. Bounded: lengths <= 700, element values are small integers under three representations; dictionary order is compared as a set because the property promises none.",
